@@ -32,6 +32,7 @@ func runHolds(sc Scenario, p *pipeline.BlockPipeline, hit, gate map[string]chan 
 		ctx, c := context.WithTimeout(context.Background(), 45*time.Millisecond)
 		err := p.WaitForDrain(ctx)
 		c()
+		pc := p.PendingCount() // not under mu: the hook's sink takes mu
 		mu.Lock()
 		isOpen := false
 		select {
@@ -42,7 +43,7 @@ func runHolds(sc Scenario, p *pipeline.BlockPipeline, hit, gate map[string]chan 
 		if err == nil && !isOpen {
 			where := k[:len(k)-len(k[indexByte(k, '/'):])]
 			out.Viol = append(out.Viol, Viol{"drain-returned-while-held-in-" + where,
-				fmt.Sprintf("WaitForDrain returned nil (PendingCount=%d) while a block submitted earlier was still held inside the %s worker", p.PendingCount(), where)})
+				fmt.Sprintf("WaitForDrain returned nil (PendingCount=%d) while a block submitted earlier was still held inside the %s worker", pc, where)})
 		}
 		mu.Unlock()
 		release(gate[k], mu)
